@@ -76,6 +76,22 @@ CLAIMED = {
         technique='Lean 4 theorems (axis permutation lemma for all 48 transforms, reversed list follows flipped data, TM string model) + header oracle on conversions + TM correspondence',
         text='For each of the 48 transforms output axis permutation[i] is proved to carry source axis i (so the header slice axis is the stacking axis and freq/phase keep their world directions); slice times are read from the reversed list, proved to hold at position k the file shown at output slice k; colons are proved ignored, 2- and 4-digit TM forms proved for all digits, 6+-digit forms by kernel-evaluated instances and correspondence; the two Python functions are proved AST-identical by the translator. Header dim_info / pixdim[4] / slice times checked against geometry and source times for all acquisition patterns.',
         design='DESIGN.md §7 C20', note=BASE_NOTE + ' nibabel set_slice_times / slice codes and binary64 rounding of the sum are trusted.'),
+    'C09': dict(
+        technique='Lean 4 theorems (token-level decode∘encode = id for every nesting, encoder injective, NUL padding strip) + byte-exact printer correspondence + file round trips',
+        text='For every value tree (any depth/width, ordered objects, number lexemes) decoding the encoded token stream returns the value, hence the encoder is injective and key order is part of the value; stripping the NIfTI NUL padding restores the content; the Lean character-level printer is compared byte for byte with to_json() on extensions holding big ints, extreme floats, unicode incl. astral, nested lists/dicts, None; from_json/from_runtime_repr/str agreement and .nii/.nii.gz save-load cycles are checked on the implementation.',
+        design='DESIGN.md §7 C09', note=BASE_NOTE + ' CPython json lexing and float repr, zlib and nibabel I/O are trusted; there is no character-level parser in the model.'),
+    'C15': dict(
+        technique='Lean 4 theorems about the executable model of MetaExtractor.__call__ over abstracted elements + key-list correspondence + value oracle',
+        text='For every dataset, translator set and rule set: each element yields at most one standard entry, only if non-blank, non-ignored and with a value, entries keep dataset order; under the extracted default rules no entry has an odd group, the pixel-data tag, an overlay-data tag or a colour-LUT tag (private data only through translators). The ordered key list of the model equals the implementation on generated datasets (all common VRs/VMs, nested sequences, private blocks, name clashes, four configurations); values, JSON-serialisability, determinism and pixel purity are checked by the oracle.',
+        design='DESIGN.md §7 C15', note=BASE_NOTE + ' pydicom and the CSA reader are parameters; the abstraction of elements is computed by the harness. Injectivity of suffixed keys is checked on generated data only.'),
+    'C18': dict(
+        technique='Lean 4 theorems about the first-fit grouping model (partition, fault isolation by list surgery, strict raise) + directory-level correspondence and oracle',
+        text='For every list of items and any closeness relation the ids in the groups are a permutation of the readable image files; inserting a non-image dataset (or in warn mode an unreadable file) anywhere leaves the result unchanged, strict mode raises; first-fit placement lemmas; stack_group skips or aborts on files that cannot join. Synthetic directories with several series, shuffled paths and injected faults are grouped by the implementation and by the model.',
+        design='DESIGN.md §7 C18', note=BASE_NOTE + ' Permutation invariance of the partition (needs closeness to be an equivalence on the inputs) is established by the search only; pydicom reading is trusted.'),
+    'C19': dict(
+        technique='Lean 4 theorems (no aliasing of module defaults per translator flag => invocation sequences are independent; unique output names; inject decision logic) + in-process vs fresh-process vs API comparison',
+        text='The translator extracts whether dcmstack_cli.main aliases the module default regex lists; given it does not, module state is proved unchanged by an invocation and the filter lists of the i-th invocation of any sequence proved to depend on its own arguments only; output names are proved pairwise distinct for any natural names; nitool inject is proved to refuse invalid class / count / existing key, to touch only its key and to keep validity. Invocation sequences are run in one process and compared with fresh processes and with the equivalent API calls; nitool dump/embed/split/merge/lookup/inject compared with the API.',
+        design='DESIGN.md §7 C19', note=BASE_NOTE + ' That the tools write what the API returns is glue established by the comparison only.'),
 }
 
 ALL = ['C%02d' % i for i in range(1, 21)]
